@@ -1,6 +1,6 @@
 """C13 Character-encoding fidelity — type-level and routing clauses."""
 import re
-from ..mirlib import load, callee_key
+from ..mirlib import load, callee_key, _rv_operands
 from ..facts import EngineError
 from . import shared, shared_mir as sm
 
@@ -15,31 +15,7 @@ def run(ctx):
     r = ctx.rule("R13.1", "non-ASCII-compatible encodings cannot be configured: Settings take an AsciiCompatibleEncoding whose only constructors check is_ascii_compatible() or use the constant UTF_8", "E-TYPE + E-MIR", floor=4)
     shared.check_witness(r, "R13_1NoRawEncoding", "Settings::with_encoding accepts a raw &'static Encoding (UTF-16 could be configured)")
     shared.check_witness(r, "R13_1PrivateConstructor", "the tuple constructor of AsciiCompatibleEncoding is reachable from outside the crate")
-    ctors = []
-    for f in mir.fns:
-        if mir.is_test_fn(f):
-            continue
-        for bi, b in enumerate(f.blocks):
-            for st in b["stmts"]:
-                if st["k"] == "assign" and st["rv"]["k"] == "agg" and st["rv"]["name"].endswith("AsciiCompatibleEncoding"):
-                    ctors.append((f, bi, st))
-    r.count("constructions", len(ctors))
-    for f, bi, st in ctors:
-        op = f.describe_operand(st["rv"]["ops"][0])
-        key = f"{f.key}|construct"
-        r.inst(key, sample={"in": f.key, "operand": op})
-        if "UTF_8" in op:
-            continue
-        # must flow only into bool::then_some whose receiver is is_ascii_compatible() of the same encoding
-        ok = False
-        for cbi, t in f.calls(r"bool::then_some$"):
-            recv = f.describe_operand(t["args"][0])
-            if "is_ascii_compatible" in recv and op in recv:
-                ok = True
-        if not ok:
-            r.violate(key, f"{f.key} constructs AsciiCompatibleEncoding({op}) without the is_ascii_compatible() check", f.loc())
-    if len(ctors) < 2:
-        raise EngineError("R13.1: fewer than 2 AsciiCompatibleEncoding constructions found")
+    clause_ascii_compatible_ctor(r, mir)
 
     # ------------------------------------------------------------------ R13.2
     r = ctx.rule("R13.2", "at most one switch, only for tokens after the meta tag, sink notified first: the shared encoding is a write-once cell set only by the charset handler; flush_encoding_change runs only right after the token that may have changed it was produced and committed", "E-MIR", floor=4)
@@ -173,3 +149,52 @@ def rule_no_bom_sniffing(ctx, mir, rid="R13.4"):
     # positive control
     r.control(bool(BOM_SNIFFING.search("Encoding::decode")) and not BOM_SNIFFING.search("Encoding::decode_without_bom_handling"), "regex distinguishes sniffing from non-sniffing entry points")
 
+
+
+def clause_ascii_compatible_ctor(r, mir):
+    """every construction of AsciiCompatibleEncoding is guarded by is_ascii_compatible() (or is the UTF_8 constant);
+    the tuple constructor is never used as a function value (`.map(Self)`), where no check can sit in between"""
+    ctors = []
+    for f in mir.fns:
+        if mir.is_test_fn(f):
+            continue
+        for bi, b in enumerate(f.blocks):
+            for st in b["stmts"]:
+                if st["k"] == "assign" and st["rv"]["k"] == "agg" and st["rv"]["name"].endswith("AsciiCompatibleEncoding"):
+                    ctors.append((f, bi, st))
+    r.count("constructions", len(ctors))
+    for f, bi, st in ctors:
+        op = f.describe_operand(st["rv"]["ops"][0])
+        key = f"{f.key}|construct"
+        r.inst(key, sample={"in": f.key, "operand": op})
+        if "UTF_8" in op:
+            continue
+        # must flow only into bool::then_some whose receiver is is_ascii_compatible() of the same encoding
+        ok = False
+        for cbi, t in f.calls(r"bool::then_some$"):
+            recv = f.describe_operand(t["args"][0])
+            if "is_ascii_compatible" in recv and op in recv:
+                ok = True
+        if not ok:
+            r.violate(key, f"{f.key} constructs AsciiCompatibleEncoding({op}) without the is_ascii_compatible() check", f.loc())
+    if len(ctors) < 2:
+        raise EngineError(r.rid + ": fewer than 2 AsciiCompatibleEncoding constructions found")
+
+    for f in mir.fns:
+        if mir.is_test_fn(f):
+            continue
+        for bi, b in enumerate(f.blocks):
+            ops = []
+            for st in b["stmts"]:
+                if st["k"] == "assign":
+                    ops += list(_rv_operands(st["rv"]))
+            t = b["term"]
+            if t["k"] == "call":
+                ops += list(t["args"])
+                if (t.get("callee") or "").endswith("AsciiCompatibleEncoding"):
+                    ops.append({"k": "const", "fn": t["callee"]})
+            for o in ops:
+                if o.get("k") == "const" and (o.get("fn") or "").endswith("AsciiCompatibleEncoding"):
+                    key = f"{f.key}|constructor-as-function"
+                    r.inst(key)
+                    r.violate(key, f"{f.key} uses the tuple constructor of AsciiCompatibleEncoding as a function (e.g. `.map(Self)`): the encoding it wraps is not checked with is_ascii_compatible(), so a label such as utf-16 or iso-2022-jp (from <meta http-equiv content=...; charset=...>) switches the rewriter to an encoding in which markup bytes are not ASCII", f.loc())
